@@ -375,6 +375,28 @@ func c09Check(c c09Case) (fs []rep.Finding) {
 			return n, true
 		})
 		call("Output.ReadFrom", func() (int64, bool) { var o bt.Output; n, _ := o.ReadFrom(bytes.NewReader(data)); return n, true })
+		// targets that already hold a decoded object
+		call("Tx.ReadFrom/into-used", func() (int64, bool) {
+			var t bt.Tx
+			_, _ = t.ReadFrom(bytes.NewReader(c09ThreeTxList[1:]))
+			n, _ := t.ReadFrom(bytes.NewReader(data))
+			return n, true
+		})
+		call("Input.ReadFrom/into-used", func() (int64, bool) {
+			var i bt.Input
+			_, _ = i.ReadFromExtended(bytes.NewReader(c09UsedInput))
+			n, _ := i.ReadFrom(bytes.NewReader(data))
+			m, _ := i.ReadFromExtended(bytes.NewReader(data))
+			if m > n {
+				n = m
+			}
+			return n, true
+		})
+		call("Output.ReadFrom/into-used", func() (int64, bool) {
+			o := bt.Output{Satoshis: 9, LockingScript: libScript([]byte{0x51, 0x52})}
+			n, _ := o.ReadFrom(bytes.NewReader(data))
+			return n, true
+		})
 		call("VarInt.ReadFrom", func() (int64, bool) { var v bt.VarInt; n, _ := v.ReadFrom(bytes.NewReader(data)); return n, true })
 		hx := hex.EncodeToString(data)
 		budget = uint64(64*len(hx)) + 256<<10
@@ -395,6 +417,28 @@ func c09Check(c c09Case) (fs []rep.Finding) {
 	call("json:UTXO", func() (int64, bool) { var u bt.UTXO; _ = json.Unmarshal(data, &u); return 0, false })
 	call("json:UTXO.NodeJSON", func() (int64, bool) { var u bt.UTXO; _ = json.Unmarshal(data, u.NodeJSON()); return 0, false })
 	call("json:UTXOs.NodeJSON", func() (int64, bool) { var u bt.UTXOs; _ = json.Unmarshal(data, u.NodeJSON()); return 0, false })
+	// targets that already hold a decoded object
+	call("json:Tx/into-used", func() (int64, bool) {
+		t, err := bt.NewTxFromBytes(c09ThreeTxList[1 : 1+(len(c09ThreeTxList)-1)/3])
+		if err != nil {
+			return 0, false
+		}
+		_ = json.Unmarshal(data, t)
+		_ = json.Unmarshal(data, t.NodeJSON())
+		return 0, false
+	})
+	call("json:UTXO/into-used", func() (int64, bool) {
+		u := bt.UTXO{TxID: txid32(7), Vout: 1, Satoshis: 5, LockingScript: libScript([]byte{0x51})}
+		_ = json.Unmarshal(data, &u)
+		_ = json.Unmarshal(data, u.NodeJSON())
+		return 0, false
+	})
+	call("json:Output/into-used", func() (int64, bool) {
+		o := bt.Output{Satoshis: 9, LockingScript: libScript([]byte{0x51, 0x52})}
+		_ = json.Unmarshal(data, &o)
+		_ = json.Unmarshal(data, o.NodeJSON())
+		return 0, false
+	})
 	return
 }
 
@@ -406,6 +450,15 @@ var c09ThreeTxList = func() []byte {
 		b = append(b, one...)
 	}
 	return b
+}()
+
+// c09UsedInput is the extended serialisation of one input.
+var c09UsedInput = func() []byte {
+	t := (&txRecipe{V: 1, NIn: 1, NOut: 1, SLen: 2, PrevLen: 3, Sats: 5, OLen: 2, Seq: 1}).build()
+	b := t.Bytes(true)
+	// version(4) marker(6) count(1), then the input up to the output count
+	end := len(b) - 4 - (8 + 1 + 2) - 1
+	return b[11:end]
 }()
 
 // c09JSONDocs enumerates JSON documents: product of per-field variants.
@@ -485,6 +538,16 @@ func c09JSONDocs(thorough bool) (docs []string) {
 			}
 		}
 	}
+	// members a node adds next to "hex" and that a decoder may be tempted to trust: size, txid, hash, confirmations
+	for _, h := range []string{hexV[1], hexV[4], hexV[8]} {
+		for _, sz := range []string{"0", "1", "9", "-1", "-1099511627776", "268435456", "4294967296", "1e30", `"x"`, "null", "1.5"} {
+			docs = append(docs, join(h, num("size", sz)), join(num("size", sz), h), "["+join(h, num("size", sz))+"]",
+				join(h, num("size", sz), num("vin", `[{"txid":"`+hex.EncodeToString(txid32(3))+`","scriptSig":{"hex":"51"}}]`)))
+		}
+		for _, tv := range []string{`"abcd"`, `""`, "5", "null", `"` + hex.EncodeToString(txid32(3)) + `"`} {
+			docs = append(docs, join(h, num("txid", tv), num("hash", tv), num("confirmations", "-1"), num("blocktime", "1e30")))
+		}
+	}
 	// list documents
 	for _, d := range []string{"null", "[]", "[null]", "[{}]", "[[]]", "{}", "5", `"x"`, "[" + join(hexV[1]) + "]", "[" + join(hexV[1]) + ",null]", "[" + join(hexV[7]) + "]"} {
 		docs = append(docs, d)
@@ -503,7 +566,7 @@ func c09JSONDocs(thorough bool) (docs []string) {
 
 func init() {
 	p := register(&Prop{ID: "C09", Level: "fault_enumeration",
-		Rule: "exhaustive fault-style enumeration in single-threaded child processes (address-space limit, per-case progress marker, death/hang attribution): for each of ~22 (quick) / 26 (thorough) reference serialisations (standard and extended): every truncation length, the whole serialisation followed by surplus bytes, every single-bit flip, every byte replaced by every other value, every length/count field replaced by each of {0xfc,253,65535,65536,2^24,2^31,2^32-1,2^32,2^40,2^63,2^64-1} with the tail kept/cut/one byte, tx-list counts with those claims, every short wide-varint prefix; all strings of length<=5/7 over {00,01,02,EF,FD,FE,FF} bare, after a version and after the extended marker; a product of JSON documents (absent/null/valid/wrong-type/bad-hex per field incl. vin[i].scriptSig, vout[i].scriptPubKey, null elements, lists, fee quotes); amount texts with more than eight decimals, exponents and overflow; each through every binary (16, incl. readers that expose only Read and list targets with spare capacity, nil slots or earlier content) or JSON (10) decoding entry point. Oracle per call: no panic, no process death, a value or an error (never neither), bytes-consumed <= bytes supplied, TotalAlloc delta <= 64*len+256KiB. distinct_nontrivial = distinct (family, decoder-outcome vector) classes",
+		Rule: "exhaustive fault-style enumeration in single-threaded child processes (address-space limit, per-case progress marker, death/hang attribution): for each of ~22 (quick) / 26 (thorough) reference serialisations (standard and extended): every truncation length, the whole serialisation followed by surplus bytes, every single-bit flip, every byte replaced by every other value, every length/count field replaced by each of {0xfc,253,65535,65536,2^24,2^31,2^32-1,2^32,2^40,2^63,2^64-1} with the tail kept/cut/one byte, tx-list counts with those claims, every short wide-varint prefix; all strings of length<=5/7 over {00,01,02,EF,FD,FE,FF} bare, after a version and after the extended marker; a product of JSON documents (absent/null/valid/wrong-type/bad-hex per field incl. vin[i].scriptSig, vout[i].scriptPubKey, null elements, lists, fee quotes); amount texts with more than eight decimals, exponents and overflow, `size`/`txid`/`hash` members that disagree with `hex`; each through every binary (19, incl. readers that expose only Read and list targets with spare capacity, nil slots or earlier content) or JSON (13) decoding entry point, incl. targets that already hold a decoded object. Oracle per call: no panic, no process death, a value or an error (never neither), bytes-consumed <= bytes supplied, TotalAlloc delta <= 64*len+256KiB. distinct_nontrivial = distinct (family, decoder-outcome vector) classes",
 	})
 	check := func(th bool, i uint64) []rep.Finding { return c09Check(c09Tab(th).at(i)) }
 	worker.Register(&worker.Space{
